@@ -309,6 +309,31 @@ example : tokOfX (.csi [65] [(2, []), (7, []), (9, [1])]) = some (.cuu 2) ∧
     tokOfX (.csi [84] [(3, []), (1, []), (1, [])]) = some (.sd 3) ∧
     tokOfX (.csi [84] [(3, []), (1, []), (1, []), (1, []), (1, [])]) = none := by decide
 
+/-! ### round 4: the oracle's vocabulary `tokOfJ` (colon sub-parameters outside SGR are IGNORED by the reference)
+
+`Spec.Term` now states the decision: a DEC VT and xterm ignore a non-SGR CSI function whose parameter string contains a colon
+(`Tok.ignored`). The oracle judges through `tokOfJ`; the emulator executes such a sequence on its main values
+(`emu_subparams_ignored` — an emulator-side fact), which is finding F106f (`Witness.F106f.refines_J_fails`, recorded).
+`tokOfJ_region`: outside that one region the judged token is the token of `tokOfX`, the vocabulary of the refinement theorems
+above — so they are the full statement minus exactly F106f. -/
+
+theorem tokOfJ_region (op : EOp) (tok : Term.Tok) (h : tokOfJ op = some tok) : tok = .ignored ∨ tokOfX op = some tok := by
+  unfold tokOfJ at h
+  split at h
+  · split at h
+    · left; cases h; rfl
+    · right; exact h
+  · right; exact h
+
+/-- the region: the one- and two-parameter functions of the vocabulary with a colon anywhere in the parameter string -/
+theorem tokOfJ_ignored_of (f : Nat) (pm : List Param) (hf : f ∈ onePs ∨ f ∈ twoPs) (hs : hasSub pm = true) :
+    tokOfJ (.csi [f] pm) = some .ignored := by
+  simp [tokOfJ, hf, hs]
+
+/-- `CSI 1:5 B` and `CSI 2;7;9:1 A` are judged as ignored; `CSI 1 B` as CUD 1; SGR keeps its sub-parameters. -/
+example : tokOfJ (.csi [66] [(1, [5])]) = some .ignored ∧ tokOfJ (.csi [65] [(2, []), (7, []), (9, [1])]) = some .ignored ∧
+    tokOfJ (.csi [66] [(1, [])]) = some (.cud 1) ∧ tokOfJ (.csi [109] [(4, [3])]) = some (.sgr [[4, 3]]) := by decide
+
 /-- The fresh terminal is a `SimC` pair (cursor visible, default shape). -/
 example : ∃ t e, SimC t e 24 80 := by
   obtain ⟨e0, he, _⟩ := VaxisModel.Props.C05.new_good 80 24 (by decide) (by decide) (by decide) (by decide)
